@@ -138,3 +138,119 @@ fn('_get_loss_function_from_river_metric', 'ixai/utils/validators/loss.py', kind
        'wraps_that_metric': lambda c: c.res._river_metric.term == c.a.river_metric.term,
        'kind_detected': lambda c: c.res._dict_input_metric == c.a.river_metric.wants_dict,
    })
+
+
+# =====================================================================================================================
+# C14: input conversion and SklearnWrapper.__call__ (feature names configured)
+# =====================================================================================================================
+from pyvc.pylib import InstT as _InstT, MatT, RowT, PREDICT
+from pyvc.sym import TOutArr as _TOutArr
+
+KeyList = TList(TKey)
+InstList = TList(_InstT)
+DictList = TList(NumDict)
+
+cls('NamedWrapper', file=F + 'base.py',
+    fields={'_feature_names': KeyList, '_prediction_function': TFnRole('predict'), 'default_label': TKey},
+    invariant={'label': lambda s: s.default_label == str_key('output'),
+               'names_distinct': lambda s: forall_int(lambda i: forall_int(
+                   lambda j: implies(land(0 <= i, i < j, j < s._feature_names.n),
+                                     s._feature_names.arr[i] != s._feature_names.arr[j])))})
+
+
+def _row_of(names, x):
+    """the row the model receives for instance x: its values for the configured feature names, in that order - a function
+    of x AS A MAP (the key order of x cannot matter) that mentions no other feature of x"""
+    return lambda row: land(RowT.n(row) == names.n, forall_int(
+        lambda t: implies(land(0 <= t, t < names.n), RowT.arr(row)[t] == _InstT.val(x)[names.arr[t]])))
+
+
+def _has_names(names, x):
+    return forall_int(lambda t: implies(land(0 <= t, t < names.n), _InstT.dom(x)[names.arr[t]]))
+
+
+fn('NamedWrapper.convert_1d_input_to_arr', F + 'base.py', src_cls='Wrapper', self_cls='NamedWrapper', params={'x_dict': _InstT},
+   pure=True, ret=MatT, requires={'has_features': lambda c: _has_names(c.old._feature_names, c.a.x_dict.t)},
+   ensures={'one_row_by_name': lambda c: land(c.res.n == 1, _row_of(c.old._feature_names, c.a.x_dict.t)(c.res.arr[0]))})
+
+fn('NamedWrapper.convert_2d_input_to_arr', F + 'base.py', src_cls='Wrapper', self_cls='NamedWrapper', params={'x_dicts': InstList},
+   pure=True, ret=MatT, local_types={'x_input': MatT},
+   requires={'has_features': lambda c: forall_int(lambda i: implies(land(0 <= i, i < c.a.x_dicts.n),
+                                                                    _has_names(c.old._feature_names, c.a.x_dicts.arr[i])))},
+   ensures={'rows_by_name': lambda c: land(c.res.n == c.a.x_dicts.n, forall_int(
+       lambda i: implies(land(0 <= i, i < c.a.x_dicts.n), _row_of(c.old._feature_names, c.a.x_dicts.arr[i])(c.res.arr[i])),
+       pats=lambda i: [c.res.arr[i]]))},
+   loops=[loop(inv={
+       'rows': lambda l: land(l.v.x_input.n == l.i, forall_int(
+           lambda j: implies(land(0 <= j, j < l.i), _row_of(l.self._feature_names, l.a.x_dicts.arr[j])(l.v.x_input.arr[j])),
+           pats=lambda j: [l.v.x_input.arr[j]])),
+       'frame': lambda l: l.v.x_dicts.t == l.a.x_dicts.t,
+   })])
+
+fn('NamedWrapper.convert_arr_output_to_dict', F + 'base.py', src_cls='Wrapper', self_cls='NamedWrapper',
+   params={'y_prediction': _TOutArr}, pure=True, ret=NumDict,
+   raises={'ValueError': {'when': lambda c: c.a.y_prediction.isstr}},
+   ensures=dict(FUNCS['Wrapper.convert_arr_output_to_dict'].ensures))
+
+
+def _canon(c, arr_term):
+    return pure_call('NamedWrapper.convert_arr_output_to_dict', c.old, arr_term)
+
+
+fn('SklearnWrapper.__call__#dict', F + 'sklearn.py', src_cls='SklearnWrapper', src_name='__call__', self_cls='NamedWrapper',
+   params={'x': _InstT}, ret=NumDict, modifies=[],
+   requires={'has_features': lambda c: _has_names(c.old._feature_names, c.a.x.t)},
+   raises={'ValueError': {}},
+   ensures={
+       # canonical dict of the prediction for the one-row array built BY NAME from the input
+       'single': lambda c: sym_exists_row(c, lambda rows: c.res.t == _canon(c, PREDICT(c.old._prediction_function, rows)).t,
+                                          [c.a.x.t]),
+   })
+
+fn('SklearnWrapper.__call__#list', F + 'sklearn.py', src_cls='SklearnWrapper', src_name='__call__', self_cls='NamedWrapper',
+   params={'x': InstList}, ret=DictList, modifies=[],
+   requires={'has_features': lambda c: forall_int(lambda i: implies(land(0 <= i, i < c.a.x.n),
+                                                                    _has_names(c.old._feature_names, c.a.x.arr[i]))),
+             # the model's batch output has one row per input row
+             'row_per_input': lambda c: sym.forall([z3.Const('rp!m', MatT.sort())], lor(
+                 _TOutArr.f(PREDICT(c.old._prediction_function, z3.Const('rp!m', MatT.sort())), 0) == 0,
+                 _TOutArr.f(PREDICT(c.old._prediction_function, z3.Const('rp!m', MatT.sort())), 1) ==
+                 MatT.n(z3.Const('rp!m', MatT.sort()))))},
+   raises={'ValueError': {}, 'TypeError': {}},
+   ensures={
+       # the list, in order, of the canonical dicts of the rows of the model's batch output Y = predict(rows built BY NAME)
+       'batch_input_by_name': lambda c: sym_exists_rows(c, c.a.x, lambda rows: c.gout.Y.t == PREDICT(c.old._prediction_function, rows)),
+       'batch_rows_in_order': lambda c: land(c.res.n == c.gout.Y.d0, forall_int(
+           lambda i: implies(land(0 <= i, i < c.res.n), _dict_of_row(c.res.arr[i], c.gout.Y, i)),
+           pats=lambda i: [c.res.arr[i]])),
+   },
+   ghost_out={'Y': (_TOutArr, lambda c: [e for e in c.run.events if e['kind'] == 'predict'][-1]['value'])})
+
+
+def sym_exists_row(c, body, xs):
+    """there is a matrix whose rows are built by name from the inputs xs such that body(matrix)"""
+    rows = z3.Const('er!rows', MatT.sort())
+    names = c.old._feature_names
+    conds = [MatT.n(rows) == len(xs)] + [_row_of(names, x)(MatT.arr(rows)[i]) for i, x in enumerate(xs)]
+    return z3.Exists([rows], z3.And(*conds, body(rows)))
+
+
+def sym_exists_rows(c, xs, body):
+    rows = z3.Const('er!rows', MatT.sort())
+    names = c.old._feature_names
+    return z3.Exists([rows], z3.And(MatT.n(rows) == xs.n, forall_int(
+        lambda i: implies(land(0 <= i, i < xs.n), _row_of(names, xs.arr[i])(MatT.arr(rows)[i]))), body(rows)))
+
+
+def _dict_of_row(d, Y, i):
+    """d is the canonical dict of row i of the batch output Y (an element of a 1-d output is a single value)"""
+    NumD = NumDict
+    dom, val = NumD.dom(d), NumD.val(d)
+    sz = z3.If(Y.ndim == 2, Y.d1, 1)
+    at = lambda j: Y.data[i * Y.d1 + j]
+    return land(
+        implies(sz == 1, land(forall_key(lambda k: dom[k] == (k == str_key('output')), pats=lambda k: [dom[k]]),
+                              val[str_key('output')] == at(0))),
+        implies(sz != 1, land(
+            forall_int(lambda j: implies(land(0 <= j, j < sz), land(dom[_idx_key(j)], val[_idx_key(j)] == at(j)))),
+            forall_key(lambda k: implies(dom[k], exists_int(lambda j: land(0 <= j, j < sz, k == _idx_key(j))))))))
